@@ -155,6 +155,15 @@ def _strip_ok(t, ext_names):
     return False
 
 
+def _strip_no_fallback(t, ext_names):
+    """the value passes through strip_suffix(_, ext) and no `unwrap_or*` supplies a fallback for non-matching keys:
+    then only keys that really end with ext can be produced (others are skipped or the call panics)"""
+    if not _strip_ok(t, ext_names):
+        return False
+    names = {callee_name(x) for x in walk(t) if x[0] == "call"}
+    return not (names & {"unwrap_or", "unwrap_or_else", "unwrap_or_default", "or", "or_else"})
+
+
 def _closure_guard(facts, cb, ext_names):
     """closure returns bool derived from ends_with(_, ext)"""
     rt = du_of(cb).local_term(0, 20)
@@ -202,8 +211,8 @@ def listing_ok(facts, body, t, ext_names, depth, guarded=False):
             for (pb, bi, call, kind) in prods:
                 if kind == "push":
                     v = arg_term(pb, call, 1, 30)
-                    g = guarded or _under_ends_with(facts, pb, bi, ext_names)
                     s_ok = _strip_ok(v, ext_names)
+                    g = guarded or _under_ends_with(facts, pb, bi, ext_names) or _strip_no_fallback(v, ext_names)
                     rs.append((g and s_ok, "push at %s: under ends_with(ext)=%s, through strip_suffix(ext)=%s" % (pb.loc(call.line), g, s_ok)))
                 else:
                     v = arg_term(pb, call, 1, 30)
@@ -221,7 +230,13 @@ def listing_ok(facts, body, t, ext_names, depth, guarded=False):
                 if cb is not None:
                     rt = du_of(cb).local_term(0, 30)
                     s_ok = _strip_ok(rt, ext_names)
-                    g = guarded or _chain_has_filter(facts, t[2][0], ext_names) or _closure_some_guarded(facts, cb, ext_names)
+                    g = guarded or _chain_has_filter(facts, t[2][0], ext_names) or _closure_some_guarded(facts, cb, ext_names) or \
+                        _strip_no_fallback(rt, ext_names)
+                    if not s_ok:
+                        # a stage that only converts its element (`.map(|s| s.to_string())`): look at the stage before it
+                        pr = peel(rt, extra=("to_string", "to_owned", "clone", "into", "as_str", "to_str"))
+                        if pr[0] == "param" or (pr[0] == "field" and peel(pr[1])[0] == "param"):
+                            return listing_ok(facts, body, t[2][0], ext_names, depth + 1, guarded)
                     return (s_ok and g, "%s(|..|) at %s: strip_suffix(ext)=%s, ends_with(ext)=%s" % (n, cb.loc(), s_ok, g))
             return False, "%s without analysable closure" % n
         if n == "filter" and len(t[2]) >= 2:
@@ -456,8 +471,11 @@ def check_consumers(facts, res):
                     cs = [x[2] for x in walk(k) if x[0] == "const" and x[1] == "str"]
                     pk = any(x[0] == "param" and x[1] == 2 for x in walk(k))
                     appended = cs[0] if cs and pk else None
-        uses_loader = any(t.callee is not None and t.callee.name == roles_of(facts).name("pack_loader") and
-                          contains_call(arg_term(b, t, 1, 30), "list_objects") for bi, t in b.calls())
+        cg_ = cg_of(facts)
+        plp = roles_of(facts).path("pack_loader")
+        uses_loader = any((not s_.fanout) and any(t_.path == plp or cg_.reaches(t_, plp) for t_ in s_.targets) and
+                          any(contains_call(arg_term(b, s_.term, i_, 30), "list_objects") for i_ in range(1, len(s_.term.args)))
+                          for s_ in cg_.sites[b.path])
         n += 1
         ok = listed is not None and listed == appended == pe and uses_loader
         res.instance("S5", "%s lists with %r, loader appends %r to the listed (stripped) name: %s" % (name, listed, appended, ok), b.loc())
